@@ -49,7 +49,7 @@ class History:
         name = 'c08_%s' % case['wseed']
         db = os.path.join(os.environ['BCL_DATA_DIR'], '%s.sqlite' % name)
         self.db = db
-        self.ctx = wallet_env.WalletCtx(name, case['kind'], case['network'], case['wt'], 'c08-%s' % case['wseed'], db)
+        self.ctx = wallet_env.WalletCtx(name, case['kind'], case['network'], case['wt'], 'c08-%s' % case['wseed'], db, compressed=not case.get('uncompressed'))
         self.known = set()       # addresses the wallet has handed out
         self.E = {}              # expected unspent outpoints -> value (valid while self.sync)
         self.sync = True
@@ -539,6 +539,9 @@ def run_shard(spec, col):
         wt = rnd.choice(['legacy', 'p2sh-segwit', 'segwit'])
         case = {'wseed': '%d-%d-%d' % (spec['seed'], spec['shard'], k), 'kind': kind, 'wt': wt, 'network': network,
                 'n_ops': rnd.randint(12, spec['max_ops'])}
+        if kind == 'single' and rnd.random() < 0.5:
+            case['wt'] = 'legacy'
+            case['uncompressed'] = True     # wallet around an old-style uncompressed WIF key
         run_history(case, col)
     if spec['shard'] == 0:
         run_cross_account_scenario(col, spec)
